@@ -128,7 +128,7 @@ PROPS = {
         "rule": WORLD_RULE, "assumptions": WORLD_ASSUMPTIONS,
     },
     "C14": {
-        "lean_modules": ["Perp.Props.VammGuards", "Perp.Props.EngineGuards", "Perp.Props.WorldInv", "Perp.Props.SatF09", "Perp.Props.SatF14", "Perp.Props.SatF", "Perp.Props.Capstone", "Perp.Props.MonitorSound", "Perp.Props.CapstoneTx", "Perp.Props.MonitorTxSound", "Perp.Props.SatExtra3"],
+        "lean_modules": ["Perp.Props.VammGuards", "Perp.Props.EngineGuards", "Perp.Props.WorldInv", "Perp.Props.SatF09", "Perp.Props.SatF14", "Perp.Props.SatF", "Perp.Props.Capstone", "Perp.Props.MonitorSound", "Perp.Props.CapstoneTx", "Perp.Props.MonitorTxSound", "Perp.Props.SatExtra3", "Perp.Props.SatExtra4"],
         "runs": lambda tier, seed: world_runs(tier, seed) + [vamm_run(tier, seed, 600, 10000)],
         "rule": WORLD_RULE, "assumptions": WORLD_ASSUMPTIONS,
     },
@@ -146,18 +146,18 @@ PROPS = {
     },
     "C04": {
         "lean_modules": ["Perp.Props.EngineMoney", "Perp.Props.TxLog", "Perp.Props.TxMoney", "Perp.Props.TxFlow", "Perp.Props.SatOpen", "Perp.Props.SatClose", "Perp.Props.SatFree", "Perp.Props.SatB", "Perp.Props.Capstone", "Perp.Props.MonitorSound", "Perp.Props.CapstoneTx", "Perp.Props.MonitorTxSound", "Perp.Props.SatExtra"],
-        "runs": lambda tier, seed: world_runs(tier, seed),
-        "rule": WORLD_RULE, "assumptions": WORLD_ASSUMPTIONS,
+        "runs": lambda tier, seed: world_runs(tier, seed) + pump_runs(tier, seed, q=100, t=800, n=2),
+        "rule": WORLD_RULE + "; plus two runs biased to the profit-taking / empty-vault campaign (payouts with a vault shortfall, small or empty insurance fund)", "assumptions": WORLD_ASSUMPTIONS,
     },
     "C05": {
         "lean_modules": ["Perp.Props.EngineGuards", "Perp.Props.EngineMoney", "Perp.Props.WorldInv", "Perp.Props.SatCBase", "Perp.Props.SatCFlow", "Perp.Props.SatCMargin", "Perp.Props.SatCWallet", "Perp.Props.SatC", "Perp.Props.Capstone", "Perp.Props.MonitorSound", "Perp.Props.CapstoneTx", "Perp.Props.MonitorTxSound"],
-        "runs": lambda tier, seed: world_runs(tier, seed),
-        "rule": WORLD_RULE, "assumptions": WORLD_ASSUMPTIONS,
+        "runs": lambda tier, seed: world_runs(tier, seed) + pump_runs(tier, seed, q=100, t=800, n=2),
+        "rule": WORLD_RULE + "; plus two runs biased to the profit-taking / empty-vault campaign (withdrawals with a vault shortfall)", "assumptions": WORLD_ASSUMPTIONS,
     },
     "C06": {
         "lean_modules": ["Perp.Props.EngineMoney", "Perp.Props.EngineGuards", "Perp.Props.CurveNoFlip", "Perp.Props.SatDBase", "Perp.Props.SatDC06", "Perp.Props.SatDWitness", "Perp.Props.SatD", "Perp.Props.Capstone", "Perp.Props.MonitorSound", "Perp.Props.CapstoneTx", "Perp.Props.MonitorTxSound"],
-        "runs": lambda tier, seed: world_runs(tier, seed, q=1200, qn=8) + pump_runs(tier, seed),
-        "rule": WORLD_RULE + "; plus three runs biased to the profit-taking / empty-vault / liquidation campaign", "assumptions": WORLD_ASSUMPTIONS,
+        "runs": lambda tier, seed: world_runs(tier, seed, q=1200, qn=8) + pump_runs(tier, seed) + [vamm_run(tier, seed, 1500, 30000)],
+        "rule": WORLD_RULE + "; plus three runs biased to the profit-taking / empty-vault / liquidation campaign; plus the vAMM unit stream (the 10 % spread-limit query at oracle prices exactly at, one unit below and one unit above the threshold)", "assumptions": WORLD_ASSUMPTIONS,
     },
     "C07": {
         "lean_modules": ["Perp.Props.LiqTwin", "Perp.Props.EngineGuards", "Perp.Props.SatDBase", "Perp.Props.SatDC07", "Perp.Props.SatDWitness", "Perp.Props.SatD", "Perp.Props.Capstone", "Perp.Props.MonitorSound", "Perp.Props.CapstoneTx", "Perp.Props.MonitorTxSound", "Perp.Props.SatDC07Partial"],
